@@ -80,6 +80,13 @@ check(
     "Trusts that 'public module' = under cdd/ and not under cdd/tests/; import triples and longer histories are not explored.",
 )
 
+check(
+    "C11",
+    "exhaustive token-sequence enumeration + Hypothesis-generated prose/interfaces/modules; bounded-progress oracle (interval-timer filter, then deterministic sys.settrace step budget)",
+    "Termination recast as a safety property a search can decide: every sequence of <=4 (quick) / <=5 (thorough) docstring tokens through six entry points, generated interfaces with hostile prose through docstring.emit and the emitters that embed it, cst_parse on token soups, and generated modules through doctrans applied 1..3 times. A violation needs both the wall-clock filter (>=10^4 x normal time) and the deterministic step budget (>=20x the calibrated maximum) to be exceeded.",
+    "A call that terminates but is super-linearly slow inside the budget is not reported; the step budget is calibrated on the generated sizes only.",
+)
+
 NOT_YET = "check not built yet in this round (work in progress; DESIGN.md section 4 has the plan)"
 
 
